@@ -166,7 +166,7 @@ def run(scn) -> RunResult:
                         and not (cmd == 0 and n == 0 and c == 255):
                     res.violate(PROP, "listen-yield", "wellformed-line-rejected", f"{proto}: {want_line!r}")
                 # (b) the app sends the message: exactly one byte-exact line reaches the device
-                if cmd in (1, 3):
+                if True:
                     obs = w.send_step(f, False)
                     res.ops += 1
                     ok = [ln for ln, good in obs.writes if good]
@@ -185,7 +185,7 @@ def run(scn) -> RunResult:
                     elif not obs.is_lib_error:
                         pass  # C12's business
                 # (d) canonical line -> decode -> re-send -> same line up to trailing whitespace
-                if obs.kind == "ok" and cmd in (1, 3):
+                if obs.kind == "ok":
                     obs3 = w.listen_step(want_line)
                     if obs3.kind == "ok":
                         o4 = w.send_step(tuple(obs3.fields), False)
